@@ -246,11 +246,17 @@ def ladder(draw, pal):
             ts, tt = (t, round(t - g, 6)) if side != "Cold" else (t, round(t + g, 6))
             us.append({"name": f"{side[0]}U{i + 1}", "type": side, "t_supply": ts, "t_target": tt, "heat_flow": None, "dt_cont": draw(st.sampled_from([0.0, 2.5, 5.0])), "htc": 1.0, "price": draw(st.sampled_from([10.0, 40.0])), "active": True})
 
-    def ok(side_types, shift):
-        lv = sorted((u["t_supply"] + (shift(u))) for u in us if u["type"] in side_types)
+    def ok(side_types, end, shift):
+        # the supply end a utility presents on this side: its hottest temperature as a hot utility, its coldest as a cold one
+        lv = sorted(end(u["t_supply"], u["t_target"]) + shift(u) for u in us if u["type"] in side_types)
         return all(b - a >= 1.0 for a, b in zip(lv, lv[1:]))
 
-    good = ok(("Hot", "Both"), lambda u: 0) and ok(("Hot", "Both"), lambda u: -u["dt_cont"]) and ok(("Cold", "Both"), lambda u: 0) and ok(("Cold", "Both"), lambda u: u["dt_cont"])
+    good = (
+        ok(("Hot", "Both"), max, lambda u: 0)
+        and ok(("Hot", "Both"), max, lambda u: -u["dt_cont"])
+        and ok(("Cold", "Both"), min, lambda u: 0)
+        and ok(("Cold", "Both"), min, lambda u: u["dt_cont"])
+    )
     # also after expansion the Both level's other end must stay >= 1 K from its neighbours: use supply-based test only
     if not good:
         # keep one utility per side: always satisfies the distance rule
